@@ -124,6 +124,7 @@ def main():
                         oracle_fail.append(item)
         else:
             requests = mod.corpus(build) + mod.generate(rng.fork(build), tier, build)
+            requests = C.with_api_paths(requests, rng.fork("paths" + build))
         if requests:
             rc1, impl, e1 = C.run_lines(binary, ["run"], requests)
             rc2, model, e2 = C.run_lines(C.driver_path(), [], mod.model_requests(requests, build) if hasattr(mod, "model_requests") else requests)
